@@ -16,6 +16,11 @@ def main(c):
         x, b = rnd.getrandbits(256), rnd.getrandbits(256)
         lines.append("dhpub %s %s" % (h(x, 64), h(b, 64)))
         lines.append("dhkey %s %s %s" % (h(rnd.getrandbits(2040), 512), h(x, 64), h(b, 64)))
+    # the error paths too: each bignum allocation refused in turn, secrets still never reach the allocator
+    x, b = rnd.getrandbits(256), rnd.getrandbits(256)
+    for k in range(1, 91):
+        lines.append("dhpub %s %s %d" % (h(x, 64), h(b, 64), k))
+        lines.append("dhkey %s %s %s %d" % (h(rnd.getrandbits(2040), 512), h(x, 64), h(b, 64), k))
     # key files failing after the secret line was read (and successful ones)
     for _ in range(c.pick(300, 5000)):
         secret = "".join(rnd.choice("abcdefghijklmnopqrstuvwxyzABCDEFGHIJKLMNOPQRSTUVWXYZ0123456789+/") for _ in range(rnd.choice([9, 12, 15, 17, 23, 40, 41, 47, 64])))
